@@ -423,6 +423,98 @@ int main(int argc, char** argv) {
                     for (const ErrorMessage::FileLocation& l : locs)
                         out += " " + hex(l.getOrigFile(false)) + " " + std::to_string(l.line) + " " + std::to_string(l.column) + " " + hex(l.getinfo());
                 }
+            } else if (f.size() >= 2 && f[0] == "wpload") {
+                // wpload <nfiles> { <hash> <ninfos> {<check> <text>}* }*
+                // the cache files are written by the real AnalyzerInformation; they are read by the real processFilesTxt with a
+                // copy of the handler of CppCheck::analyseWholeProgram(buildDir, ...) (lib/cppcheck.cpp; the copy is compared with the
+                // source by the check) that uses the real CheckInstances / Check::name() / loadFileInfoFromXml / CTU::FileInfo::loadFromXml,
+                // and by the real CheckUnusedFunctions::analyseWholeProgram
+                Cur c{f, 1};
+                const long long nfiles = c.num();
+                std::vector<std::pair<unsigned long long, std::vector<std::pair<std::string, std::string>>>> files;
+                for (long long k = 0; k < nfiles && !c.bad; ++k) {
+                    const unsigned long long hash = c.unum();
+                    const long long n = c.num();
+                    std::vector<std::pair<std::string, std::string>> infos;
+                    for (long long j = 0; j < n && !c.bad; ++j) {
+                        std::string chk = c.str();
+                        std::string txt = c.str();
+                        infos.emplace_back(std::move(chk), std::move(txt));
+                    }
+                    files.emplace_back(hash, std::move(infos));
+                }
+                if (c.done()) {
+                    const std::string bd = scratch + "/bdw";
+                    freshDir(bd);
+                    std::list<std::string> names;
+                    for (size_t k = 0; k < files.size(); ++k) names.push_back("s" + std::to_string(k) + ".c");
+                    AnalyzerInformation::writeFilesTxt(bd, names, {});
+                    size_t k = 0;
+                    for (const std::string& name : names) {
+                        AnalyzerInformation ai;
+                        std::list<ErrorMessage> errors;
+                        ai.analyzeFile(bd, name, "", 0, files[k].first, errors);
+                        for (const auto& p : files[k].second)
+                            ai.setFileInfo(p.first, p.second);
+                        ai.close();
+                        ++k;
+                    }
+                    std::string w;
+                    {
+                        std::list<Check::FileInfo*> fileInfoList;
+                        std::map<std::string, std::vector<std::string>> byCheck;
+                        CTU::FileInfo ctuFileInfo;
+                        bool threw = false;
+                        std::string err;
+                        try {
+                            const auto handler = [&fileInfoList, &ctuFileInfo, &byCheck](const char* checkattr, const XMLElement* e, const AnalyzerInformation::Info& filesTxtInfo) {
+                                if (std::strcmp(checkattr, "ctu") == 0) {
+                                    ctuFileInfo.loadFromXml(e);
+                                    return;
+                                }
+                                for (const Check *check : CheckInstances::get()) {
+                                    if (checkattr == check->name()) {
+                                        if (Check::FileInfo* fi = check->loadFileInfoFromXml(e)) {
+                                            fi->file0 = filesTxtInfo.sourceFile;
+                                            fileInfoList.push_back(fi);
+                                            byCheck[check->name()].push_back(hex(fi->toString()));
+                                        }
+                                    }
+                                }
+                            };
+                            err = AnalyzerInformation::processFilesTxt(bd, handler);
+                        } catch (const std::exception&) {
+                            threw = true;
+                        }
+                        for (Check::FileInfo* fi : fileInfoList) delete fi;
+                        if (threw || !err.empty())
+                            w = "none";
+                        else {
+                            auto join = [&](const char* name) {
+                                std::string r;
+                                const auto it = byCheck.find(name);
+                                if (it != byCheck.end())
+                                    for (size_t i = 0; i < it->second.size(); ++i) r += (i ? "," : "") + it->second[i];
+                                return r;
+                            };
+                            w = "ctu:" + fiS(ctuFileInfo) + "|buf:" + join("Bounds checking") + "|cls:" + join("Class") + "|np:" + join("Null pointer") + "|un:" + join("Uninitialized variables");
+                        }
+                    }
+                    std::string bs;
+                    {
+                        Settings settings;
+                        settings.checks.enable(Checks::unusedFunction);
+                        Collect b;
+                        try {
+                            CheckUnusedFunctions::analyseWholeProgram(settings, b, bd);
+                            bs = joinSorted(b.unused);
+                            if (!b.other.empty()) bs = "threw";
+                        } catch (const std::exception&) {
+                            bs = "threw";
+                        }
+                    }
+                    out = "W=" + w + " B=" + bs;
+                }
             } else if (f.size() >= 2 && f[0] == "unusedsrc") {
                 // unusedsrc <nfiles> {<hex filename> <hex code>}*
                 Cur c{f, 1};
